@@ -229,11 +229,19 @@ def _tsl_side(draw, tb, dyn, order, gaps, unit, allow_dyn_steps):
     pos = positions(tb)
     dyn_pos = []
     if allow_dyn_steps:
+        mode = draw(st.sampled_from(["none", "dyn-dims", "dyn-dims", "random", "all-outer"]))
         for d in range(len(tb)):
             # README domain: only the outermost tile of a dimension may have a dynamic step
-            w = 2 if dyn[d] else 6
-            if draw(st.integers(0, w)) == 0 or (dyn[d] and draw(st.integers(0, 2)) == 0):
+            if mode == "dyn-dims":
+                pick = dyn[d]
+            elif mode == "random":
+                pick = draw(st.booleans())
+            else:
+                pick = mode == "all-outer"
+            if pick:
                 dyn_pos.append((d, 0))
+        if dyn_pos and draw(st.integers(0, 2)) == 0:  # one of them keeps a static step (the README's `[?, 4] -> (32, 4)`)
+            dyn_pos.remove(draw(st.sampled_from(dyn_pos)))
         if len(dyn_pos) == len(pos):  # keep at least one static step (all-dynamic is C10's finding, not this property)
             dyn_pos = dyn_pos[:-1]
     static_order = [p for p in order if p not in dyn_pos]
@@ -256,7 +264,13 @@ def _strided_side(draw, tb, dyn, dim_order, gaps, any_dyn):
         strides[d] = extent * mul + add
         extent = strides[d] * sizes[d]
     if any_dyn:
-        dyn_strides = [draw(st.integers(0, 2)) == 0 for _ in range(n)]
+        mode = draw(st.sampled_from(["none", "non-unit", "non-unit", "random", "all"]))
+        if mode == "non-unit":
+            dyn_strides = [s != 1 for s in strides]
+        elif mode == "random":
+            dyn_strides = [draw(st.booleans()) for _ in range(n)]
+        else:
+            dyn_strides = [mode == "all"] * n
         dyn_offset = draw(st.integers(0, 2)) == 0
     else:
         dyn_strides = [False] * n
@@ -291,8 +305,12 @@ def case(draw, tier="quick", kinds=None, static_only=False):
     dynamic_case = (not static_only) and draw(st.integers(0, 2)) == 0
     dyn = [False] * n
     if dynamic_case:
-        dyn = [draw(st.booleans()) for _ in range(n)]
-        if not any(dyn) and draw(st.integers(0, 3)) > 0:
+        dmode = draw(st.sampled_from(["all", "random", "random", "one", "static-shape"]))
+        if dmode == "all":
+            dyn = [True] * n
+        elif dmode == "random":
+            dyn = [draw(st.booleans()) for _ in range(n)]
+        elif dmode == "one":
             dyn[draw(st.integers(0, n - 1))] = True
     tb = []
     prod = 1
@@ -309,6 +327,12 @@ def case(draw, tier="quick", kinds=None, static_only=False):
             prod *= b
         tb.append(bs)
     pos = positions(tb)
+    # bounds used for nesting: a `?` bound with static strides around it must leave room for more than the size of this
+    # run (a type that is one-to-one only for one run-time size is legal but silly), so nest with the largest size (5) mostly
+    roomy = draw(st.integers(0, 3)) > 0
+    nb = [[(5 if roomy else max(2, b)) if (k == 0 and dyn[d]) else b for k, b in enumerate(bs)] for d, bs in enumerate(tb)]
+    rt_tb = tb
+    tb = nb  # noqa: PLW2901  (the nesting below only looks at nb; the recipe keeps the run-time bounds)
 
     # source nesting
     gaps_s = {p: draw(_gap()) for p in pos}
@@ -321,7 +345,7 @@ def case(draw, tier="quick", kinds=None, static_only=False):
         order_s = list(draw(st.permutations(pos)))
 
     # destination nesting derived from the source's
-    mode = draw(st.sampled_from(["same", "prefix", "prefix", "indep"]))
+    mode = draw(st.sampled_from(["same", "prefix", "prefix", "prefix", "indep", "indep"]))
     if mode == "same":
         order_d = list(order_s)
     elif mode == "prefix":
@@ -349,17 +373,25 @@ def case(draw, tier="quick", kinds=None, static_only=False):
     src = side(ks, order_s, gaps_s, unit_s)
     dst = side(kd, order_d, gaps_d, unit_d)
     fam = "constructed"
-    if not dynamic_case and ks != "none" and draw(st.integers(0, 11)) == 0:
+    if not dynamic_case and ks != "none" and draw(st.integers(0, 9)) == 0:
         # overlapping source: copy the step of another position (repeated steps with bounds > 1)
         fam = "src-overlap"
         if ks == "tsl":
-            flat = [s for dim in src["steps"] for s in dim]
             p = draw(st.sampled_from(pos))
-            src["steps"][p[0]][p[1]] = draw(st.sampled_from(flat + [1]))
+            same_b = [q for q in pos if q != p and tb[q[0]][q[1]] == tb[p[0]][p[1]]]
+            others = same_b if (same_b and draw(st.integers(0, 3)) > 0) else [q for q in pos if q != p]
+            if others:
+                q = draw(st.sampled_from(others))
+                src["steps"][p[0]][p[1]] = src["steps"][q[0]][q[1]]
+            else:
+                src["steps"][p[0]][p[1]] = 1
         else:
+            sizes = _dim_sizes(tb)
             d = draw(st.integers(0, n - 1))
-            src["strides"][d] = draw(st.sampled_from(src["strides"] + [1]))
-    return dict(elt=draw(st.sampled_from(["i8", "i16", "i32", "i32", "i64"])), tb=tb, dyn=dyn, src=src, dst=dst,
+            same_b = [e for e in range(n) if e != d and sizes[e] == sizes[d]]
+            others = same_b if (same_b and draw(st.integers(0, 3)) > 0) else [e for e in range(n) if e != d]
+            src["strides"][d] = src["strides"][draw(st.sampled_from(others))] if others else 1
+    return dict(elt=draw(st.sampled_from(["i8", "i16", "i32", "i32", "i64"])), tb=rt_tb, dyn=dyn, src=src, dst=dst,
                 bs=draw(st.integers(0, 9)), bd=draw(st.integers(0, 9)), fam=fam)
 
 
